@@ -1485,6 +1485,9 @@ def simplify_term(t):
             return ("with", b[1], frozenset(merged.items()))
         return ("with", b, frozenset(ups.items()))
     if t[0] == "upd":
+        if isinstance(t[1], str) and t[1].startswith("core::option::Option::") and t[1].endswith("::take") and not t[3]:
+            # `opt.take()` leaves None behind, whatever was there
+            return ("agg", "core::option::Option", "None", ())
         return ("upd", t[1], simplify_term(t[2]), tuple(simplify_term(a) for a in t[3]))
     return t
 
